@@ -21,6 +21,14 @@ R3  shared-state inventory: module-level mutable objects, mutable default
     arguments, class-level attributes of per-request classes; every survivor
     is on a frozen, reasoned allow-list whose side condition is re-checked.
 R4  params / req / resp are created per call and never parked on ``self``.
+R7  a raised exception OBJECT is private to the call that raises it: ``raise <name>`` / ``raise self.<attr>`` of an exception instance
+    constructed in an enclosing function scope (closure), at module level or on a non-per-request object is a violation (seeded s8-c19-1).
+
+R2 (wave 8) also covers the per-request objects that hold a HANDLE on shared configuration: an attribute that a per-request class's
+``__init__`` binds to a parameter annotated with a configuration class (a class an instance of which a shared object creates and keeps in
+its own ``__init__``: MultipartParseOptions, RequestOptions, ResponseOptions, ...; derived, printed as c19_configuration_classes /
+c19_shared_handles) is an alias of shared state - no method of that class stores into it, directly or through a local alias (seeded
+s8-c19-2).  Anchors: the four multipart classes must still bind such a handle.
 
 Declared anchors: ``CompiledRouter.find`` / ``__init__`` (lock = the attribute
 that receives ``threading.Lock()``; finder slot, stub, builder and tables are
@@ -806,6 +814,180 @@ def r2_no_request_state(run):
                          g, n, witness=['%s is bound from %s' % (nm, o)],
                          runtime_witness='two concurrent requests write their own data into the one object %s of the shared %s; '
                                          'one of them reads back (or sends) the other\'s values' % (o, c.name))
+    _r2_shared_handles_of_request_objects(run)
+
+
+def _configuration_classes(p) -> Dict[str, str]:
+    """class qual -> 'Owner.__init__: self.a = ...' for the package classes an instance of which a SHARED object (the apps, the router,
+    every media handler, every middleware class) creates and keeps on itself in its ``__init__``: option/configuration objects that live as
+    long as the app and are seen by every request."""
+    owners: List[str] = [q for app in (WSGI_APP, ASGI_APP) for q in p.mro(app) if q in p.classes] + [ROUTER]
+    for base, _names in R2_FAMILIES:
+        owners += [base] + sorted(p.subclasses(base))
+    owners += [c.qual for c in p.module(MIDDLEWARE_MODULE).classes.values()]
+    out: Dict[str, str] = {}
+    work = list(dict.fromkeys(owners))
+    seen = set()
+    while work:
+        oq = work.pop(0)
+        if oq in seen or oq not in p.classes or not _in_scope(p.classes[oq].module.name):
+            continue
+        seen.add(oq)
+        init = p.classes[oq].methods.get('__init__')
+        if init is None:
+            continue
+        for n in walk_self(init.node):
+            if not isinstance(n, (ast.Assign, ast.AnnAssign)) or getattr(n, 'value', None) is None:
+                continue
+            tg = n.targets if isinstance(n, ast.Assign) else [n.target]
+            if not any(_self_attr(t) for t in tg):
+                continue
+            for c in ast.walk(n.value):
+                if isinstance(c, ast.Call):
+                    q = p.resolve_expr(init.module, c.func, init)
+                    if q in p.classes and _in_scope(p.classes[q].module.name) and not _is_immutable_class(p, q):
+                        out.setdefault(q, '%s: %s' % (init.qual, short(n)))
+                        work.append(q)      # what a configuration object keeps is configuration too
+    return out
+
+
+def _shared_handle_attrs(p, cq: str, config: Dict[str, str]) -> Dict[str, str]:
+    """attribute of the per-request class `cq` -> why it denotes shared state: ``self.<attr> = <parameter>`` in the class's ``__init__``
+    where the parameter is annotated with a configuration class (see _configuration_classes)"""
+    init = p.lookup_method(cq, '__init__')
+    if init is None:
+        return {}
+    ann: Dict[str, str] = {}
+    a = init.node.args
+    for arg in a.posonlyargs + a.args + a.kwonlyargs:
+        if arg.annotation is None:
+            continue
+        for x in ast.walk(arg.annotation):
+            if isinstance(x, (ast.Name, ast.Attribute)):
+                q = p.resolve_expr(init.module, x, init)
+                if q in config:
+                    ann[arg.arg] = q
+            elif isinstance(x, ast.Constant) and isinstance(x.value, str):
+                try:
+                    sub = ast.parse(x.value, mode='eval').body
+                except SyntaxError:
+                    continue
+                for y in ast.walk(sub):
+                    if isinstance(y, (ast.Name, ast.Attribute)):
+                        q = p.resolve_expr(init.module, y, init)
+                        if q in config:
+                            ann[arg.arg] = q
+    out: Dict[str, str] = {}
+    for n in walk_self(init.node):
+        if isinstance(n, (ast.Assign, ast.AnnAssign)) and getattr(n, 'value', None) is not None:
+            tg = n.targets if isinstance(n, ast.Assign) else [n.target]
+            v = n.value
+            srcs = [v] + (list(v.values) if isinstance(v, ast.BoolOp) else [v.body, v.orelse] if isinstance(v, ast.IfExp) else [])
+            for t in tg:
+                if _self_attr(t):
+                    for s in srcs:
+                        if isinstance(s, ast.Name) and s.id in ann:
+                            out[t.attr] = '%s binds self.%s to its parameter %s: %s, the object created and kept by %s' % (
+                                init.qual, t.attr, s.id, ann[s.id].rsplit('.', 1)[1], config[ann[s.id]])
+    return out
+
+
+def _stores_through_self_attr(f: Func, attrs) -> List[Tuple[str, ast.AST]]:
+    """(attr, construct) for every store into an attribute/subscript OF ``self.<attr>`` (attr in attrs) and every in-place mutator called on
+    it (or below it) in f; rebinding ``self.<attr>`` itself is the per-request object's own business"""
+    out = []
+    for n in walk_self(f.node):
+        tgts = []
+        if isinstance(n, ast.Assign):
+            tgts = list(n.targets)
+        elif isinstance(n, (ast.AugAssign, ast.AnnAssign)):
+            tgts = [n.target] if not (isinstance(n, ast.AnnAssign) and n.value is None) else []
+        elif isinstance(n, ast.Delete):
+            tgts = list(n.targets)
+        elif isinstance(n, (ast.For, ast.AsyncFor)):
+            tgts = [n.target]
+        elif isinstance(n, (ast.With, ast.AsyncWith)):
+            tgts = [i.optional_vars for i in n.items if i.optional_vars is not None]
+        flat = []
+        for t in tgts:
+            if isinstance(t, (ast.Tuple, ast.List)):
+                flat.extend(x.value if isinstance(x, ast.Starred) else x for x in ast.walk(t) if isinstance(x, (ast.Attribute, ast.Subscript, ast.Starred)))
+            else:
+                flat.append(t)
+        for t in flat:
+            if isinstance(t, (ast.Attribute, ast.Subscript)) and not _self_attr(t):
+                root, first = _root_and_first(t)
+                if root == 'self' and first in attrs:
+                    out.append((first, n))
+        if isinstance(n, ast.Call) and isinstance(n.func, ast.Attribute) and n.func.attr in MUTATORS:
+            root, first = _root_and_first(n.func.value)
+            if root == 'self' and first in attrs:
+                out.append((first, n))
+        if isinstance(n, ast.Call) and isinstance(n.func, ast.Name) and n.func.id in ('setattr', 'delattr') and n.args:
+            root, first = _root_and_first(n.args[0])
+            if root == 'self' and first in attrs:
+                out.append((first, n))
+    return out
+
+
+# the per-request objects of the media layer that are handed the handler's options object (anchors: each must still bind one)
+R2_REQUEST_OBJECTS_WITH_SHARED_HANDLE = ['falcon.media.multipart.MultipartForm', 'falcon.media.multipart.BodyPart',
+                                         'falcon.asgi.multipart.MultipartForm', 'falcon.asgi.multipart.BodyPart']
+
+
+def _r2_shared_handles_of_request_objects(run):
+    """R2, per-request objects holding a handle on shared configuration (wave 8, seeded s8-c19-2).  The per-request classes are private to a
+    request, but an attribute that their ``__init__`` binds to a parameter annotated with a configuration class - a class an instance of
+    which a shared object (app, router, media handler, middleware) creates and keeps in its own ``__init__``; e.g.
+    ``MultipartForm._parse_options`` <- ``MultipartFormHandler.parse_options`` - is an ALIAS OF SHARED STATE.  No method of such a class
+    (sync or async, nested functions included; ``__init__`` excepted) stores into an attribute/subscript of that object, calls an
+    in-place mutator on it, or does so through a local alias of it.
+    W: one client posts a form with ``_charset_=iso-8859-1``; the parser writes it to ``self._parse_options.default_charset``; every
+    request in flight and every later one decodes its un-annotated text parts with that client's charset."""
+    p = run.project
+    config = _configuration_classes(p)
+    run.extra['c19_configuration_classes'] = {k: v for k, v in sorted(config.items())}
+    classes: List[str] = []
+    for b in PER_REQUEST_BASES:
+        p.cls(b)
+        for cq in [b] + sorted(p.subclasses(b)):
+            if cq not in classes and _in_scope(p.classes[cq].module.name):
+                classes.append(cq)
+    handles: Dict[str, Dict[str, str]] = {cq: _shared_handle_attrs(p, cq, config) for cq in classes}
+    for cq in R2_REQUEST_OBJECTS_WITH_SHARED_HANDLE:
+        if not handles.get(cq):
+            raise AnchorError('%s.__init__: the attribute bound to the media handler\'s shared options object was not found' % cq)
+    run.extra['c19_shared_handles'] = {cq: sorted(h) for cq, h in handles.items() if h}
+    by_class: Dict[str, List[Func]] = {}
+    for g in p.all_functions():
+        oc = func_owner_class(g)
+        if oc is not None and handles.get(oc.qual):
+            by_class.setdefault(oc.qual, []).append(g)
+    for cq in classes:
+        attrs = dict(handles.get(cq) or {})
+        if not attrs:
+            continue
+        # (inherited methods are decided under the class that defines them, with the handles its __init__ binds)
+        funcs = list(by_class.get(cq, []))
+        c = p.classes[cq]
+        for g in funcs:
+            if g.name == '__init__' and g.cls is not None:
+                continue
+            run.use(g)
+            direct = _stores_through_self_attr(g, attrs)
+            al = [(nm, o, n) for (nm, o, n) in alias_writes(p, g) if _origin_attr(o) in attrs]
+            if not direct and not al:
+                run.ok('per-request %s: %s stores nothing into the shared object(s) behind self.%s' % (c.name, g.name, '/self.'.join(sorted(attrs))),
+                       g.loc(), g.qual)
+            rw = ('a value taken from one request is written into the options object every request of the app reads (%s): '
+                  'requests in flight and all later ones are processed with that request\'s value')
+            for a, n in direct:
+                run.fail('per-request %s: %s stores into the shared object behind self.%s' % (c.name, g.name, a), g, n,
+                         witness=[attrs[a]], runtime_witness=rw % attrs[a].split(', the object')[0])
+            for nm, o, n in al:
+                a = _origin_attr(o)
+                run.fail('per-request %s: %s stores into the shared object behind self.%s through its local alias `%s`' % (c.name, g.name, a, nm), g, n,
+                         witness=[attrs[a], '%s is bound from %s' % (nm, o)], runtime_witness=rw % attrs[a].split(', the object')[0])
 
 
 # ---------------------------------------------------------------------------
@@ -1479,12 +1661,193 @@ def r6_tables_rebound(run):
                   runtime_witness='a recompile refills the list object that a lookup in flight is indexing')
 
 
+
+# ---------------------------------------------------------------------------
+# R7  raised error objects are private to the call that raises them
+# ---------------------------------------------------------------------------
+
+def _is_exc_class(p, q) -> bool:
+    return q is not None and p.is_subclass(q, 'builtins.BaseException') is True
+
+
+def _is_per_request_class(p, cq: str) -> bool:
+    return any(cq == b or p.is_subclass(cq, b) is True for b in PER_REQUEST_BASES)
+
+
+def _local_bindings(f: Func, name: str):
+    """(values assigned to the plain local `name` in f, other binding constructs, is an except-handler name)"""
+    vals, others, handler = [], [], False
+    for n in walk_self(f.node):
+        if isinstance(n, ast.Assign):
+            for t in n.targets:
+                if isinstance(t, ast.Name) and t.id == name:
+                    vals.append(n.value)
+                elif not isinstance(t, ast.Name) and any(isinstance(x, ast.Name) and x.id == name and isinstance(x.ctx, ast.Store) for x in ast.walk(t)):
+                    others.append(n)
+        elif isinstance(n, ast.AnnAssign) and isinstance(n.target, ast.Name) and n.target.id == name:
+            if n.value is not None:
+                vals.append(n.value)
+        elif isinstance(n, ast.NamedExpr) and n.target.id == name:
+            vals.append(n.value)
+        elif isinstance(n, ast.ExceptHandler) and n.name == name:
+            handler = True
+        elif isinstance(n, (ast.AugAssign, ast.For, ast.AsyncFor, ast.With, ast.AsyncWith, ast.Import, ast.ImportFrom)):
+            tg = [n.target] if isinstance(n, (ast.AugAssign, ast.For, ast.AsyncFor)) else \
+                 [i.optional_vars for i in n.items if i.optional_vars is not None] if isinstance(n, (ast.With, ast.AsyncWith)) else []
+            if any(isinstance(x, ast.Name) and x.id == name and isinstance(x.ctx, ast.Store) for t in tg for x in ast.walk(t)):
+                others.append(n)
+            if isinstance(n, (ast.Import, ast.ImportFrom)) and any((al.asname or al.name).split('.')[0] == name for al in n.names):
+                others.append(n)
+    return vals, others, handler
+
+
+def _declared_outer(f: Func, name: str) -> bool:
+    return any(isinstance(x, (ast.Global, ast.Nonlocal)) and name in x.names for x in walk_self(f.node))
+
+
+def _raised_origin(p, f: Func, e, depth=0) -> Tuple[str, str]:
+    """('fresh' | 'shared' | 'unknown', why) for the object ``raise <e>`` raises in f.  fresh: built by a call evaluated for this raise, an
+    exception CLASS (instantiated by the raise), the exception caught by an enclosing ``except ... as``, a parameter, an attribute of a
+    per-request object.  shared: an exception INSTANCE constructed once and kept where every call sees it - a local of an enclosing function
+    (closure), a module-level name, an attribute of a non-per-request object."""
+    if depth > 4:
+        return 'unknown', 'chain of locals too long'
+    if isinstance(e, ast.Call):
+        return 'fresh', 'built by a call evaluated for this raise'
+    if isinstance(e, ast.IfExp):
+        rs = [_raised_origin(p, f, x, depth + 1) for x in (e.body, e.orelse)]
+        for kind in ('shared', 'unknown'):
+            for r in rs:
+                if r[0] == kind:
+                    return r
+        return rs[0]
+    if isinstance(e, ast.Name):
+        name = e.id
+        if not _declared_outer(f, name):
+            if name in f.params():
+                return 'fresh', 'a parameter: the caller\'s object'
+            vals, others, handler = _local_bindings(f, name)
+            if others:
+                return 'unknown', '%s is bound by %s' % (name, short(others[0]))
+            if vals or handler:
+                rs = [_raised_origin(p, f, v, depth + 1) for v in vals]
+                for kind in ('shared', 'unknown'):
+                    for r in rs:
+                        if r[0] == kind:
+                            return r
+                return 'fresh', 'a local of this call'
+        # a free variable: locals of the enclosing functions
+        g = f.parent
+        while g is not None:
+            if name in g.params():
+                return 'unknown', '%s is a parameter of the enclosing %s: whether every call may raise that one object is the caller\'s knowledge' % (name, g.qual)
+            vals, others, handler = _local_bindings(g, name)
+            if others or handler:
+                return 'unknown', '%s is bound in the enclosing %s by something other than an assignment' % (name, g.qual)
+            if vals:
+                for v in vals:
+                    if isinstance(v, ast.Call) and _is_exc_class(p, p.resolve_expr(g.module, v.func, g)):
+                        return 'shared', '%s = %s in the enclosing %s: ONE instance, captured by the closure and raised by every call of %s' % (
+                            name, short(v), g.qual, f.name)
+                if all(isinstance(v, (ast.Name, ast.Attribute)) and _is_exc_class(p, p.resolve_expr(g.module, v, g)) for v in vals):
+                    return 'fresh', 'an exception class'
+                return 'unknown', '%s = %s in the enclosing %s' % (name, short(vals[0]), g.qual)
+            g = g.parent
+        q = p.resolve_expr(f.module, e, f)
+        if _is_exc_class(p, q):
+            return 'fresh', 'the exception class %s (instantiated by the raise)' % q
+        return _module_level_origin(p, q, name)
+    if isinstance(e, ast.Attribute):
+        q = p.resolve_expr(f.module, e, f)
+        if _is_exc_class(p, q):
+            return 'fresh', 'the exception class %s (instantiated by the raise)' % q
+        root, first = _root_and_first(e)
+        if root == 'self' and first is not None:
+            oc = func_owner_class(f)
+            if oc is None:
+                return 'unknown', 'self outside a class'
+            if _is_per_request_class(p, oc.qual):
+                return 'fresh', 'an attribute of the per-request %s' % oc.name
+            for cq in p.mro(oc.qual):
+                c = p.classes.get(cq)
+                if c is None:
+                    continue
+                if first in c.attrs and isinstance(c.attrs[first], ast.Call) and _is_exc_class(p, p.resolve_expr(c.module, c.attrs[first].func)):
+                    return 'shared', '%s.%s = %s at class level' % (c.name, first, short(c.attrs[first]))
+                for m in c.methods.values():
+                    for n in walk_self(m.node):
+                        if isinstance(n, ast.Assign) and any(_self_attr(t, first) for t in n.targets) and isinstance(n.value, ast.Call) \
+                                and _is_exc_class(p, p.resolve_expr(m.module, n.value.func, m)):
+                            return 'shared', '%s: self.%s = %s - one instance kept on the %s object and raised by every call' % (m.qual, first, short(n.value), c.name)
+            return 'unknown', 'self.%s of the (not per-request) class %s' % (first, oc.name)
+        if q is not None:
+            return _module_level_origin(p, q, ast.unparse(e))
+        return 'unknown', 'the object %s' % short(e)
+    return 'unknown', 'the expression %s' % short(e)
+
+
+def _module_level_origin(p, q, text) -> Tuple[str, str]:
+    if q is None:
+        return 'unknown', 'the name %s' % text
+    q = p.canonical(q)
+    if _is_exc_class(p, q):
+        return 'fresh', 'the exception class %s (instantiated by the raise)' % q
+    mod, _, nm = q.rpartition('.')
+    m = p.modules.get(mod)
+    if m is not None and nm in m.consts:
+        v = m.consts[nm]
+        if isinstance(v, ast.Call) and _is_exc_class(p, p.resolve_expr(m, v.func)):
+            return 'shared', '%s = %s at module level: ONE instance raised by every call' % (q, short(v))
+        if isinstance(v, (ast.Name, ast.Attribute)) and _is_exc_class(p, p.resolve_expr(m, v)):
+            return 'fresh', 'an alias of an exception class'
+    return 'unknown', 'the name %s (%s)' % (text, q)
+
+
+def r7_raised_errors_fresh(run):
+    """An exception OBJECT raised by package code is private to the call that raises it (wave 8, seeded s8-c19-1): ``raise <name>`` /
+    ``raise self.<attr>`` where the name denotes an exception INSTANCE constructed in an enclosing function scope (captured by the closure),
+    at module level, or kept on a non-per-request object is a violation; ``raise C(...)``, ``raise C`` (a class), re-raising what an ``except``
+    arm caught, a parameter, a local built by this call and an attribute of a per-request object are not.
+    Lemma: the error object the app hands to error handlers / serializers and renders into the response (``_handle_exception``,
+    ``_compose_error_response``) is not reachable from any other request.  An exception instance is mutable (description, headers, title,
+    ``__traceback__``, ``__context__``).
+    W: two requests rejected by the same route's default 405 responder interleave at an ``await`` of a custom error handler that completes the
+    error's description/headers and re-raises it: one client receives the other's description and request id."""
+    p = run.project
+    n_calls = n_bare = 0
+    for f in p.all_functions():
+        if not _in_scope(f.module.name):
+            continue
+        for n in walk_self(f.node):
+            if not isinstance(n, ast.Raise):
+                continue
+            if n.exc is None:
+                n_bare += 1
+                continue
+            if isinstance(n.exc, ast.Call):
+                n_calls += 1
+                continue
+            kind, why = _raised_origin(p, f, n.exc)
+            if kind == 'unknown':
+                raise UnknownIdiom('%s: %s - where the raised object comes from is not understood (%s)' % (f.qual, short(n), why))
+            run.use(f)
+            run.check(kind == 'fresh', 'the raised error object is private to this call (built for this raise, an exception class, the caught exception, '
+                                       'a parameter or a per-request attribute): %s' % why, f, n, witness=[why],
+                      runtime_witness='concurrent requests raise the SAME exception instance: an error handler that completes its description/headers for one '
+                                      'request and re-raises it changes what the other request\'s client receives')
+    run.extra['c19_raise_sites'] = {'raise C(...)': n_calls, 'bare re-raise': n_bare}
+    if n_calls < 50:
+        raise AnchorError('only %d `raise C(...)` statements found in the package: the scan does not see the code' % n_calls)
+
+
 def check(run):
     run.assume('configuration-time mutation (add_route, add_error_handler, option assignment) does not race with traffic; user code is out of scope')
     run.assume('objects handed out by lru_cache-d functions are not mutated by user code')
     run.rule('R1', r1_compile_lock, 'lazy router compilation under the lock, re-check, publish after build, re-read tables', floor=7)
-    run.rule('R2', r2_no_request_state, 'no store into self on the request path of shared objects', floor=45)
+    run.rule('R2', r2_no_request_state, 'no store into self on the request path of shared objects', floor=150)
     run.rule('R3', r3_inventory, 'shared-state inventory against the reasoned allow-list', floor=24)
     run.rule('R6', r6_tables_rebound, 'a recompile publishes fresh router tables; no published table is emptied or reordered in place', floor=3)
     run.rule('R5', r5_memo_returns_mutable, 'memoised functions do not hand out mutable containers they built', floor=5)
     run.rule('R4', r4_fresh_per_call, 'params/req/resp fresh per call and never parked on self', floor=30)
+    run.rule('R7', r7_raised_errors_fresh, 'a raised exception object is private to the call that raises it (no closure-captured / module-level / '
+             'handler-wide exception instance is raised for every request)', floor=5)
